@@ -104,7 +104,7 @@ def run(ctx):
     scns = []
     gens = (("Gen_Dispatch.cfg", 60 * k), ("Gen_Dispatch_calm.cfg", 60 * k), ("Gen_Dispatch_kf.cfg", 40 * k))
     if not ctx.thorough:
-        gens = (("Gen_Dispatch.cfg", 80), ("Gen_Dispatch_kf.cfg", 40))
+        gens = (("Gen_Dispatch.cfg", 60), ("Gen_Dispatch_kf.cfg", 30))
     for cfg, num in gens:
         got, _ = ctx.gen(SD, "Dispatch", cfg, simulate="num=%d" % num, depth=121, timeout=1800,
                          label="random walks of the model (%s)" % cfg)
@@ -160,8 +160,10 @@ def run(ctx):
         e2e = e2e[:1]
     ev2 = run_e2e(ctx, e2e)
     tr2 = vlib.split_traces(ev2)
-    acc2 = ctx.judge(SD, "DispatchTrace", "Judge_Dispatch_e2e.cfg", ev2, scenario_of={s["id"]: s for s in e2e},
-                     timeout=1800, heap="12g")
+    maxw = max([e.get("w", 0) for e in ev2] + [w for e in ev2 for w in e.get("bad", []) + e.get("others", [])] + [0])
+    small = max(s["n"] for s in e2e) <= 130 and maxw <= 300      # smaller identity sets judge faster
+    acc2 = ctx.judge(SD, "DispatchTrace", "Judge_Dispatch_e2e_mid.cfg" if small else "Judge_Dispatch_e2e.cfg", ev2,
+                     scenario_of={s["id"]: s for s in e2e}, timeout=1800, heap="12g")
     nproc = sum(1 for e in ev2 if e["ev"] == "procsnap")
     ctx.extra["ii_runs"] = len(tr2)
     ctx.extra["ii_containers"] = sum(s["n"] for s in e2e)
